@@ -13,7 +13,7 @@ var (
 	// only where a property quantifies over 64-bit integer texts
 	BigNumTexts = []string{"9007199254740993", "9223372036854775807", "9223372036854775808", "18446744073709551615"}
 	StrTexts    = []string{`""`, `"a"`, `"b"`, `"ab"`, "\"é\"", "\"é\"", "\"\U0001F600\"", "\"\U0001F600\U0001F4A9\U0001D11E\"", "\"\U0001D11E\U0001D11E\U0001D11E\U0001D11E\U0001D11E\"", "\"abcd\"", "\"ab\U0001F600\""}
-	ArrTexts    = []string{`[]`, `[1]`, `[1,1]`, `[1,1.0]`, `[1,"a"]`, `[1,2,3]`, `[[1]]`, `[{}]`, `[{"a":1},{"a":1.0}]`, `["a","b"]`, `[null]`, `[1,2]`, `["x",1]`, `[0]`, `[{"a":1,"b":2},{"b":2,"a":1}]`, `[false,0]`, `[[],[]]`, `[1,2,3,4]`, `[null,null]`, `[null,false]`, `[true,"\u0001"]`, `[["ab","c"],["a","bc"]]`, `[{"a":"bc"},{"ab":"c"}]`, `["",[]]`, `[0,"0"]`, `[[1,2],[12]]`, `[{"a":1,"b":2},{"a":12}]`,
+	ArrTexts    = []string{`[0,-0]`, `[[0],[-0.0]]`, `[{"a":0},{"a":-0}]`, `[]`, `[1]`, `[1,1]`, `[1,1.0]`, `[1,"a"]`, `[1,2,3]`, `[[1]]`, `[{}]`, `[{"a":1},{"a":1.0}]`, `["a","b"]`, `[null]`, `[1,2]`, `["x",1]`, `[0]`, `[{"a":1,"b":2},{"b":2,"a":1}]`, `[false,0]`, `[[],[]]`, `[1,2,3,4]`, `[null,null]`, `[null,false]`, `[true,"\u0001"]`, `[["ab","c"],["a","bc"]]`, `[{"a":"bc"},{"ab":"c"}]`, `["",[]]`, `[0,"0"]`, `[[1,2],[12]]`, `[{"a":1,"b":2},{"a":12}]`,
 		`[[1],["a"]]`, `[[[1]]]`, `[{"a":1},{"b":"x"}]`, `[[1,"a"]]`, `["a",["a"]]`}
 	ObjTexts = []string{`{}`, `{"a":1}`, `{"b":1}`, `{"a":1,"b":2}`, `{"a":"x"}`, `{"a":{"a":1}}`, `{"ab":1}`, `{"a":null}`,
 		"{\"é\":1}", "{\"é\":1}", `{"c":1}`, `{"a":1,"b":2,"c":3}`, `{"a":[1]}`, `{"b":"x"}`, `{"a":1,"c":"x"}`, `{"b":null}`, `{"b":0}`, `{"a":[]}`, `{"a":{}}`, `{"ba":1}`,
